@@ -27,7 +27,11 @@ def tmpdir():
 
 
 # ---------------------------------------------------------------- strings for names / metadata
-NAME_ALPHABET = list("abcXYZ019 _-:,{}#()'\"/\\.;=+*&éßλ中🙂") + ["__1", "__2", ": ", " :", "# "]
+NAME_ALPHABET = list("abcXYZ019 _-:,{}#()'\"/\\.;=+*&éßλ中🙂") + ["__1", "__2", ": ", " :", "# ", "  ", "\t"]
+# characters that str.splitlines() treats as line boundaries but a text file does not: legal inside a
+# field of a FILE (write -> parse_file), not in content handed to parse_str (C10 keeps them out)
+EXOTIC = ["\x0b", "\x0c", "\x1c", "\x1d", "\x1e", "\x85", "\u2028", "\u2029"]
+_exotic = [False]
 
 
 def text_field(rng, allow_empty=True, maxlen=12):
@@ -36,7 +40,8 @@ def text_field(rng, allow_empty=True, maxlen=12):
     if allow_empty and r < 0.12:
         return ""
     n = rng.randint(1, maxlen)
-    t = "".join(rng.choice(NAME_ALPHABET) for _ in range(n)).strip()
+    alphabet = NAME_ALPHABET + (EXOTIC if _exotic[0] and rng.random() < 0.3 else [])
+    t = "".join(rng.choice(alphabet) for _ in range(n)).strip()
     if not t and not allow_empty:
         t = "x"
     return t
@@ -115,6 +120,7 @@ def describe(inst):
     n = type(inst).__name__
     if n == "OrdinalInstance":
         return {"cls": "ord", "header": header_of(inst), "num_unique": inst.num_unique_orders,
+                "preferences_same": [tup(o) for o in getattr(inst, "preferences", inst.orders)] == [tup(o) for o in inst.orders],
                 "orders": [[list(c) for c in o] for o in inst.orders],
                 "multiplicity": [[[list(c) for c in o], m] for o, m in inst.multiplicity.items()]}
     if n == "CategoricalInstance":
@@ -135,6 +141,7 @@ def canon(d):
     c = {"cls": d["cls"], "header": dict(d["header"])}
     c["header"]["alternatives_name"] = sorted(map(tuple, d["header"]["alternatives_name"]))
     if d["cls"] == "ord":
+        c["preferences_same"] = d.get("preferences_same", True)     # `preferences` is the documented alias of `orders`
         c["num_unique"] = d["num_unique"]
         c["orders"] = sorted(repr(o) for o in d["orders"])
         c["multiplicity"] = sorted((repr(o), m) for o, m in d["multiplicity"])
@@ -235,7 +242,13 @@ def gen_ordinal(rng, kind=None, big=False):
     extra = rng.random() < 0.2 and c["type"] in ("soi", "toi")
     if extra:
         alts = alts + [max(alts) + rng.randint(1, 30)]
-    h = header_fields(rng, c["type"])
+    declared = c["type"]
+    if rng.random() < 0.2:
+        # a declared type may be more general than what the ballots happen to be
+        more = {"soc": ["soi", "toc", "toi"], "soi": ["toi"], "toc": ["toi"], "toi": []}[declared]
+        if more:
+            declared = rng.choice(more)
+    h = header_fields(rng, declared)
     h["num_alternatives"] = len(alts)
     h["num_voters"] = sum(m for _, m in c["profile"])
     h["alternatives_name"] = alt_names(rng, alts)
